@@ -61,6 +61,13 @@ CHECKS = {
  'C18': dict(engine='B+A', technique='symbolic execution (z3, IEEE-UF) of the real Verner cross-section routine on arbitrary tables against the transcribed published formula; cbmc bit-precise for the table search',
    text='Cross sections for arbitrary table entries with the shipped sign pattern equal the published fitting formula on the same tables, are non-negative and exactly zero below threshold (element Z=4 tables, all ionisation stages, shells 1-3); Utilities::locate brackets every x in every strictly increasing table of length 2..16.',
    note='Partial: table values themselves, recombination/charge-transfer rates, statistical distribution of sampled frequencies are outside.', ref='DESIGN.md section 5 C18'),
+
+ 'C02': dict(engine='B', technique='symbolic execution (z3, IEEE-UF term level) of the real DensitySubGrid::interact on small blocks, every feasible path, against the textbook march written in the harness as specification',
+   text='For every start position, direction sign pattern (axis-aligned and tie cases are separate paths), cell content and target optical depth on blocks of 1-2 cells per axis: which cells are credited what (path length terms, optical-depth chain, estimator and heating increments exactly once per visited cell), stop INSIDE iff the target is reached with the surplus correction, exit classification = walls crossed, final position exactly on the crossed walls, no cell twice, no more cells than a straight line crosses.',
+   note='Term identities are decided instead of the real-number sums with a tolerance. Entry classification INSIDE; hand-over on entry is C03-T2. Blocks > 2 cells per axis, propagate(), compute_optical_depth() outside.', ref='DESIGN.md section 5 C02 / 8.2'),
+ 'C06': dict(engine='B', technique='symbolic execution (z3, IEEE-UF sign and monotonicity axioms) of the real hydrogen-only closed form',
+   text='Partial: the H-only neutral fraction is in [1e-14,1] for all positive inputs and exactly 1 without radiation or gas; weakly decreasing in the radiation field in the large-flux branch. The coupled H/He iteration, metal stages and the thermal balance are NOT decided (iterative numerics over exp/pow; convergence statements).',
+   note='Only the closed form of IonizationStateCalculator::compute_ionization_state_hydrogen; everything else of C06 is outside.', ref='DESIGN.md section 5 C06'),
 }
 NA = {
 }
